@@ -332,6 +332,7 @@ fn supervise(worker: &str, args: &[String], jobs: usize, sink: &mut dyn FnMut(Va
             let mut skip = 0usize;
             let mut restarts = 0;
             let mut confirmed_hangs = 0;
+            let mut lost_items = 0;
             loop {
                 let extra = vec!["--part".to_string(), part.to_string(), "--parts".into(), jobs.to_string(),
                                  "--skip".into(), skip.to_string()];
@@ -350,7 +351,7 @@ fn supervise(worker: &str, args: &[String], jobs: usize, sink: &mut dyn FnMut(Va
                         // A stall may be an overloaded machine: run the item once more, alone,
                         // with a generous limit, before calling it a hang of the shell.
                         let mut settled = false;
-                        if why == "timeout" && confirmed_hangs < 3 {
+                        if why == "timeout" && confirmed_hangs < 1 {
                             let extra = vec!["--only".to_string(), idx.to_string()];
                             let (p2, l2, _) = run_worker(&exe, &worker, &args, &extra, stall * 8, &tx);
                             if l2.is_none() && p2.is_none() {
@@ -362,6 +363,13 @@ fn supervise(worker: &str, args: &[String], jobs: usize, sink: &mut dyn FnMut(Va
                         if !settled {
                             v["lost"] = json!(why);
                             let _ = tx.send(Ok(v));
+                            lost_items += 1;
+                            if lost_items >= 8 {
+                                // the shell hangs or crashes on many programs: enough evidence
+                                let _ = tx.send(Ok(json!({"note": format!(
+                                    "part {part}/{jobs} abandoned after {lost_items} hung/crashed executions")})));
+                                return;
+                            }
                         }
                         skip = skip.max(idx + 1);
                     }
